@@ -12,14 +12,18 @@ Bool2 == {Un(Sq, Cir(V2(4, -2), A0(4))), Un(Cir(V2(0, 0), A0(6)), Tri(V2(-10, -4
 Transf2 == {Tr(p, t) : p \in {Cir(V2(0, 0), A0(6)), Tri(V2(0, 0), V2(10, 0), V2(0, 8))}, t \in {V2(4, -2), <<A1(0, "t"), A0(2)>>}}
            \cup {Ro(p, m, V2(2, -4)) : p \in {Sq, Tri(V2(-10, -4), V2(6, -8), V2(2, 10))}, m \in {"r90", "p345", "p51213"}}
 PolyB2 == {Un(Poly(<<RingL>>), Cir(V2(4, -2), A0(4))), Cu(Cir(V2(0, 0), A0(6)), Poly(<<RingL>>))}
-U2 == Prims2 \cup Bool2 \cup Transf2 \cup Polys \cup {Ro(Poly(<<RingL>>), "p345", V2(2, -4))}
+\* (the 20-vertex spiral is expensive for the lattice masses: it is sampled uniformly with a coarser sub-lattice and on its outline only)
+PolysS == {q \in Polys : Len(q.rings[1]) <= 6}
+Spirals == Polys \ PolysS
+U2 == Prims2 \cup Bool2 \cup Transf2 \cup PolysS \cup {Ro(Poly(<<RingL>>), "p345", V2(2, -4))}
 Scen ==
     {[Base EXCEPT !.g = 16] @@ [expr |-> x, law |-> "uniform", N |-> 16384, log |-> "boxes", check |-> "uniform2"] : x \in U2}
     \* (membership of a polygon is a loop over the points: fewer points where a polygon filters the candidates of another shape)
     \cup {[Base EXCEPT !.g = 16] @@ [expr |-> x, law |-> "uniform", N |-> 4096, log |-> "boxes", check |-> "uniform2"] : x \in PolyB2}
-    \cup {[Base EXCEPT !.d = 2000, !.g = 16] @@ [expr |-> x, law |-> "uniform_d", N |-> 0, log |-> "boxes", check |-> "uniform2"] : x \in Bool2 \cup {Cir(V2(0, 0), A0(6)), Sq} \cup Polys}
+    \cup {[Base EXCEPT !.g = 8] @@ [expr |-> x, law |-> "uniform", N |-> 16384, log |-> "boxes", check |-> "uniform2"] : x \in Spirals}
+    \cup {[Base EXCEPT !.d = 2000, !.g = 16] @@ [expr |-> x, law |-> "uniform_d", N |-> 0, log |-> "boxes", check |-> "uniform2"] : x \in Bool2 \cup {Cir(V2(0, 0), A0(6)), Sq} \cup PolysS}
     \cup {[Base EXCEPT !.den = 4, !.nb = 32, !.g = 4, !.dim = 1] @@ [expr |-> x, law |-> "uniform", N |-> 4096, log |-> "boxes", check |-> "uniform1"] : x \in Ints}
-    \cup {Base @@ [expr |-> x, law |-> "grid", N |-> 400, log |-> "boxes", check |-> "grid2"] : x \in {p \in Prims2 : TRUE} \cup Bool2 \cup Polys}
+    \cup {Base @@ [expr |-> x, law |-> "grid", N |-> 400, log |-> "boxes", check |-> "grid2"] : x \in {p \in Prims2 : TRUE} \cup Bool2 \cup PolysS}
     \cup {[Base EXCEPT !.lo = -1, !.den = 4, !.nb = 10, !.lo4 = -4, !.mean4 = <<1>>, !.mean = <<1>>, !.std = 2, !.dim = 1]
              @@ [expr |-> I1, law |-> "gauss", N |-> 16384, log |-> "boxes", check |-> "gauss"]}
     \cup {[Base EXCEPT !.lo = 0, !.den = 4, !.nb = 8, !.lo4 = 0, !.mean4 = <<4, 4>>, !.mean = <<4, 4>>, !.std = 2, !.dim = 2]
@@ -72,5 +76,11 @@ Scen6 == {[Base EXCEPT !.den = 4, !.nb = 32, !.g = 4, !.dim = 1, !.pre = pr] @@ 
 DepCirK == Cir(V2(0, 0), [c |-> 2, k |-> [nm \in {"u", "k"} |-> 1]])
 Scen7 == {[Base EXCEPT !.den = 4, !.nb = 32, !.g = 4, !.dim = 1, !.rows = Rows2, !.judge = j, !.row = Rows2[j]]
              @@ [expr |-> Pr(DepCirK, [k |-> "interval", v |-> "u", lo |-> A0(0), hi |-> A0(4)]), law |-> "uniform", N |-> 8192, log |-> "boxes", check |-> "depmarg", proj |-> "u"] : j \in 1..2}
-ASSUME ndJsonSerialize(IOEnv.OUT_FILE, SetToSeq(Scen \cup Scen2 \cup Scen3 \cup Scen4 \cup Scen5 \cup Scen6 \cup Scen7)) /\ PrintT(<<"SCENARIOS", Cardinality(Scen \cup Scen2 \cup Scen3 \cup Scen4 \cup Scen5 \cup Scen6 \cup Scen7)>>)
+\* ---- a cut whose removed disc moves and grows with the parameter row, sampled for two rows in one call (every row has its own points)
+CutK == Cu(Par(V2(-8, -8), V2(8, -8), V2(-8, 8)), Cir(<<A1(-4, "t"), A0(0)>>, A1(2, "k")))
+Scen8 == {[Base EXCEPT !.g = 16, !.rows = Rows2, !.judge = j, !.row = Rows2[j]] @@ [expr |-> CutK, law |-> "uniform", N |-> 4096, log |-> "boxes", check |-> "uniform2"] : j \in 1..2}
+\* ---- the two end points of an interval as a boundary: half of the points at either end, also when they are drawn one or three at a time
+\* (d calls of std points each on one object; a product samples its first factor one point per row)
+Scen9 == {[Base EXCEPT !.boundary = TRUE, !.d = 600, !.std = nn, !.den = 4, !.nb = 32, !.dim = 1] @@ [expr |-> I1, law |-> "uniform_acc", N |-> 600 * nn, log |-> "boxes", check |-> "endpoints"] : nn \in {1, 3}}
+ASSUME ndJsonSerialize(IOEnv.OUT_FILE, SetToSeq(Scen \cup Scen2 \cup Scen3 \cup Scen4 \cup Scen5 \cup Scen6 \cup Scen7 \cup Scen8 \cup Scen9)) /\ PrintT(<<"SCENARIOS", Cardinality(Scen \cup Scen2 \cup Scen3 \cup Scen4 \cup Scen5 \cup Scen6 \cup Scen7 \cup Scen8 \cup Scen9)>>)
 ==========================================================================
